@@ -183,6 +183,20 @@ class FaultEngine(hist.Engine):
         return op
 
 
+TIGHT = Fraction(1, 10**6)
+
+
+def _on_grid(v):
+    """Is the number a multiple of 0.01 (as a decimal; float dust below 1e-9 ignored)?"""
+    try:
+        f = float(v)
+    except Exception:
+        return False
+    if not math.isfinite(f) or abs(f) > 1e12:
+        return False
+    return abs(f * 100 - round(f * 100)) < 1e-7
+
+
 class AppendJudge(hist.Monitor):
     """Incremental replay at every append + end-of-operation verdicts."""
 
@@ -194,7 +208,12 @@ class AppendJudge(hist.Monitor):
 
     def start(self, eng):
         self.eng = eng
-        self.interp = gwl.Interp(eng.case["worktable"], eng.device, check_limits=True)
+        # records carry two decimals: half a cent of slack per record that touched a well - unless every volume
+        # requested so far (and the step limit that shapes the partitions) lies on the 0.01 grid, in which case
+        # the records are exact and so is the replay
+        self.on_grid = _on_grid(eng.case["worklist"]["max_volume"])
+        self.interp = gwl.Interp(eng.case["worktable"], eng.device, check_limits=True,
+                                 tol_per_record=TIGHT if self.on_grid else Fraction(1, 200))
         self.wlmax = fr(eng.case["worklist"]["max_volume"])
         self.wl_id = id(eng.world.wl)
         self.n_seen = 0
@@ -246,6 +265,17 @@ class AppendJudge(hist.Monitor):
     def before(self, eng, op):
         self.pending = []
         self.n0 = len(eng.world.wl)
+        if self.on_grid:
+            try:
+                ok = all(_on_grid(v) for _, _, v in hist.elements(op))
+            except Exception:
+                ok = False
+            if not ok:
+                self.on_grid = False
+                self.interp.tol = Fraction(1, 200)
+                self.ctx.count("replay_tolerance_widened_for_off_grid_volumes")
+        if self.on_grid:
+            self.ctx.count("operations_replayed_exactly")
 
     def after(self, eng, op, out):
         ctx = self.ctx
@@ -323,7 +353,7 @@ def eng_is_k1(eng, rec):
 
 
 def n_cases(tier):
-    return 1500 if tier == "quick" else 120000
+    return 3000 if tier == "quick" else 150000
 
 
 KINDS = ["transfer", "transfer", "transfer", "aspirate", "dispense", "distribute", "distribute", "evo_aspirate", "evo_dispense"]
@@ -338,7 +368,7 @@ def gen_case(rng, tier, index):
         wl["auto_split"] = rng.random() < 0.3
     elif rng.random() < 0.15:
         wl["auto_split"] = False
-    wt = gen.gen_worktable(rng, vclass=vclass if vclass != "dirty" else "cent", limits=rng.choice(["tight", "tight", "loose"]),
+    wt = gen.gen_worktable(rng, vclass=vclass if vclass != "dirty" else "cent", limits=rng.choice(["tight", "tight", "tight", "loose", "loose", "reservoir", "reservoir"]),
                            need_trough=rng.random() < 0.7, small=True)
     fault = {"class": cls, "kind": rng.choice(KINDS if cls == "limit" else ["transfer", "transfer", "aspirate", "dispense", "distribute", "evo_aspirate"])}
     if cls == "invalid":
